@@ -40,6 +40,11 @@ pub struct HCirc {
     /// register sizes (sum = n); printed as q0, q1, ... when more than one
     pub regs: Vec<usize>,
     pub gates: Vec<HGate>,
+    /// 0 = canonical text; otherwise a seed from which the printer derives, per statement, an
+    /// equivalent spelling (phase written as pi*3/8, as a float times pi, shifted by 2pi,
+    /// negative; a size-1 register named without index; upper-case CX; extra blanks and comments)
+    #[serde(default)]
+    pub style: u64,
 }
 
 impl GK {
@@ -114,6 +119,7 @@ impl HCirc {
             n,
             regs: vec![n],
             gates: vec![],
+            style: 0,
         }
     }
     pub fn is_exact(&self) -> bool {
@@ -151,18 +157,44 @@ impl HCirc {
         }
         s
     }
+    /// name of qubit q; `bare` allows naming a size-1 register without an index
+    fn qname_styled(&self, q: usize, bare: bool) -> String {
+        if bare && self.regs.len() > 1 {
+            let mut off = 0;
+            for (r, &sz) in self.regs.iter().enumerate() {
+                if q < off + sz {
+                    if sz == 1 {
+                        return format!("r{}", r);
+                    }
+                    break;
+                }
+                off += sz;
+            }
+        }
+        self.qname(q)
+    }
+
     pub fn qasm_statements(&self) -> Vec<String> {
         self.gates
             .iter()
-            .map(|g| {
-                let mut s = String::from(g.k.name());
+            .enumerate()
+            .map(|(i, g)| {
+                // per-statement variant, derived from the style seed only (never from a PRNG)
+                let v = if self.style == 0 { 0 } else { crate::decider::mix(self.style, i as u64) };
+                let mut s = String::from(if v % 7 == 3 && g.k == GK::CX { "CX" } else { g.k.name() });
                 if let GK::Rz(n, d) | GK::Rx(n, d) = g.k {
-                    s += &format!("({})", phase_expr(n, d));
+                    s += &format!("({})", phase_expr_styled(n, d, (v >> 8) % 6));
                 }
-                s += " ";
-                let qs: Vec<String> = g.qs.iter().map(|&q| self.qname(q)).collect();
-                s += &qs.join(", ");
-                s += ";\n";
+                s += if (v >> 16) % 5 == 1 { "   " } else { " " };
+                let bare = (v >> 20) % 3 == 1 && g.k.arity() == 1;
+                let qs: Vec<String> = g.qs.iter().map(|&q| self.qname_styled(q, bare)).collect();
+                s += &qs.join(if (v >> 24) % 4 == 1 { " ,  " } else { ", " });
+                s += match (v >> 28) % 6 {
+                    1 => " ;\n",
+                    2 => "; // a comment\n",
+                    3 => ";\n\n",
+                    _ => ";\n",
+                };
                 s
             })
             .collect()
@@ -173,6 +205,31 @@ impl HCirc {
             s += &st;
         }
         s
+    }
+}
+
+/// Equivalent spellings of the phase n*pi/d.
+fn phase_expr_styled(n: i64, d: i64, variant: u64) -> String {
+    match variant {
+        1 => {
+            // pi*n/d
+            if d == 1 {
+                format!("pi*{n}")
+            } else {
+                format!("pi*{n}/{d}")
+            }
+        }
+        2 => {
+            // float multiple of pi (exact for power-of-two denominators, 17 digits otherwise)
+            format!("{:?}*pi", n as f64 / d as f64)
+        }
+        3 => phase_expr(n + 2 * d, d), // shifted by +2pi
+        4 => phase_expr(n - 2 * d, d), // shifted by -2pi
+        5 => {
+            // (n/d)*pi with parentheses
+            format!("({n}/{d})*pi")
+        }
+        _ => phase_expr(n, d),
     }
 }
 
@@ -823,6 +880,35 @@ impl PCirc {
             })
             .collect()
     }
+    /// Apply the parsed program to a state vector (f64).
+    pub fn apply(&self, st: &[C64]) -> Vec<C64> {
+        let mut st = st.to_vec();
+        for g in &self.gates {
+            match g {
+                PGate::K(k, qs) => {
+                    apply_gate(&mut st, &HGate { k: *k, qs: qs.clone() }).unwrap();
+                }
+                PGate::F(is_x, ht, q) => {
+                    if *is_x {
+                        apply_h(&mut st, *q);
+                    }
+                    let a = std::f64::consts::PI * ht;
+                    let (c, s) = (a.cos(), a.sin());
+                    let m = 1usize << q;
+                    for (i, x) in st.iter_mut().enumerate() {
+                        if i & m != 0 {
+                            *x = C64(x.0 * c - x.1 * s, x.0 * s + x.1 * c);
+                        }
+                    }
+                    if *is_x {
+                        apply_h(&mut st, *q);
+                    }
+                }
+            }
+        }
+        st
+    }
+
     pub fn gate_names(&self) -> Vec<&'static str> {
         self.gates
             .iter()
